@@ -84,11 +84,18 @@ WrongField(dt) ==
       P(CaseOf([code |-> CodeOf(dt), dims |-> <<2>>, enc |-> "typed", field |-> f, raw |-> <<>>,
                 vals |-> [k \in 1..2 |-> [i \in 1..CarrierWidth(f) |-> IF i = 1 THEN k ELSE 0]]], <<dt, "wrong_field", f>>))
 
+\* long payloads (block-wise readers): 520 and 2 x 300 elements, raw and typed, exact and one element short
+LongCases(dt) ==
+   \A dims \in {<<520>>, <<2, 300>>}, enc \in {"raw", "typed"} :
+      /\ P(CaseOf(Proto(dt, dims, enc, Size(dims), 0, <<>>, 0), <<dt, enc, "long_payload", "exact">>))
+      /\ P(CaseOf(Proto(dt, dims, enc, Size(dims) - 1, 0, <<>>, 0), <<dt, enc, "long_payload", "elem_short">>))
 Init == \/ st \in [fam : {"types"}, dt : Types, dims : {s \in Shapes : Len(s) <= MaxRank}, done : {FALSE}]
+        \/ st \in [fam : {"long"}, dt : Types, done : {FALSE}]
         \/ st \in [fam : {"other"}, code : OtherCodes, done : {FALSE}]
         \/ st \in [fam : {"wrongfield"}, dt : Types, done : {FALSE}]
 Emit == /\ ~st.done
         /\ CASE st.fam = "types" -> Cases(st.dt, st.dims)
+             [] st.fam = "long" -> LongCases(st.dt)
              [] st.fam = "other" -> OtherCases(st.code)
              [] st.fam = "wrongfield" -> WrongField(st.dt)
         /\ st' = [st EXCEPT !.done = TRUE]
